@@ -208,6 +208,12 @@ Proof.
     + apply H. lia.
 Qed.
 
+Lemma sustain_conforms_V4 : forall fb rows, nfrag fb = true -> wf_rows fb rows ->
+  exists b, sustain_conforms fb (cand_of_rows rows) = Ok b /\ (b = true <-> V4 fb rows).
+Proof.
+  intros fb rows H1 H2. eexists. split; [apply sustain_model; auto | apply sustain_model_V4; auto].
+Qed.
+
 (** * Factors of the reference semantics: [factor_ok] is clause V4 on well-formed rows *)
 
 Lemma nth_error_combine_seq : forall {A} (ys : list A) a i,
@@ -477,3 +483,25 @@ Theorem nfrag_mismatch_iff_valid_b : forall fb rows,
   nfrag fb = true -> wf_rowsb fb rows = true ->
   (no_mismatch fb (cand_of_rows rows) = true <-> Sem.valid_b (code_sem_n fb) rows = true).
 Proof. intros. apply nfrag_mismatch_iff_valid; auto. apply wf_rowsb_wf; auto. Qed.
+
+(** * The design of the known finding, as the real constructors flatten it:
+      Nest(CrossBlock([s],[s],[Sequential(s)]), CrossBlock([A],[A],[])) with
+      |s| = 3, |A| = 2: 6 trials, s sustained over 2 trials. *)
+Definition nest_fb : flat :=
+  {| fl_design := [ex_factor [1; 1; 1]; ex_factor [1; 1]];
+     fl_act := [0; 1]; fl_crossings := [[0]; [1]]; fl_sustains := [2; 1]; fl_weights := [1; 1]; fl_sizes := [6; 2];
+     fl_preambles := [0; 0]; fl_alignment := EqualPreamble; fl_alignment_preamble := 0; fl_min_trials := 0;
+     fl_trials := 6; fl_rcc := true; fl_exclude := []; fl_excluded_derived := [];
+     fl_constraints := [FCross; FConsistency; FSequential 0; FSustain];
+     fl_errors_fail := false |}.
+
+Definition nest_rows_valid : list (list (option nat)) :=
+  [[Some 0; Some 0; Some 1; Some 1; Some 2; Some 2];
+   [Some 1; Some 0; Some 0; Some 1; Some 1; Some 0]].
+(* the sequence the pre-6ff33e3 checker demanded: levels by trial, not by trial group *)
+Definition nest_rows_by_trial : list (list (option nat)) :=
+  [[Some 0; Some 0; Some 2; Some 2; Some 1; Some 1];
+   [Some 1; Some 0; Some 0; Some 1; Some 1; Some 0]].
+Definition nest_rows_unsustained : list (list (option nat)) :=
+  [[Some 0; Some 1; Some 1; Some 1; Some 2; Some 2];
+   [Some 1; Some 0; Some 0; Some 1; Some 1; Some 0]].
